@@ -14,6 +14,7 @@ import itertools
 
 import dataiter as di
 from mc import values as V
+from mc import dfbfs
 
 ID = "C03"
 TITLE = "sort is a stable, key-ordered permutation of whole rows"
@@ -25,7 +26,7 @@ ASSUMPTIONS = [
     "strings are compared by code point; characters above U+FFFF are outside the alphabet",
 ]
 BOUND = {
-    "quick": "long periodic frames of 17 and 40 rows (period <= 3 over {NA,lo,hi}) per kind; one key: rows 0..3 (0..4 for alphabets <= 4 values) over 'quick' alphabets of 9 kinds x dir; two keys: all 81 kind pairs x {NA,lo,hi}^2 rows 0..3 x 4 direction vectors; three keys: 12 kind triples rows 0..2 x 8 direction vectors",
+    "quick": "E2: sort of every column after every history of <= 2 in-place edits / observe-and-discard calls / cell pokes from 7 initial frames; long periodic frames of 17 and 40 rows (period <= 3 over {NA,lo,hi}) per kind; one key: rows 0..3 (0..4 for alphabets <= 4 values) over 'quick' alphabets of 9 kinds x dir; two keys: all 81 kind pairs x {NA,lo,hi}^2 rows 0..3 x 4 direction vectors; three keys: 12 kind triples rows 0..2 x 8 direction vectors",
     "thorough": "long periodic frames of 17, 40, 130, 300 rows (period <= 4); one key: rows 0..4 (0..5 for alphabets <= 4 values) over 'thorough' alphabets x dir; two keys: all kind pairs rows 0..4; three keys: 12 kind triples rows 0..3",
 }
 TIME_CAP = {"quick": 240, "thorough": 3000}
@@ -53,6 +54,12 @@ def shards(tier):
             out.append({"part": "two", "kinds": [k1, k2], "n": 4 if big else 3})
     for t in TRIPLES:
         out.append({"part": "three", "kinds": list(t), "n": 3 if big else 2})
+    # E2: sort after a history of in-place edits, observe-and-discard calls and cell pokes on the same object
+    for init in range(len(dfbfs.INITS)):
+        d, M, seen = dfbfs.build_init(init)
+        for op in dfbfs.menu(M, seen):
+            if op["op"] in dfbfs.INPLACE:
+                out.append({"part": "bfs", "init": init, "prefix": [op], "depth": 2 if not big else 3})
     # long periodic frames: sizes at which NumPy switches sorting algorithm (stability is size-dependent there)
     for kind in KINDS:
         for length in ([17, 40] if not big else [17, 40, 130, 300]):
@@ -106,6 +113,8 @@ def check_order(ids, keycells, dirs):
 
 
 def check_case(case, rec):
+    if "history" in case:
+        return dfbfs.check_history(case, rec, {"C03"})
     cols = case["cols"]
     keys = case["keys"]
     names = [c[0] for c in cols]
@@ -159,6 +168,12 @@ def check_case(case, rec):
 
 
 def run_shard(shard, rec):
+    if shard["part"] == "bfs":
+        last = shard["depth"] - 1
+        filt = lambda level, op: (op["op"] == "sort") if level == last else (op["op"] in dfbfs.INPLACE)
+        dfbfs.explore(shard["init"], shard["prefix"], shard["depth"], rec, {"C03"}, op_filter=filt)
+        rec.sample({"part": "bfs", "init": dfbfs.INITS[shard["init"]], "history": shard["prefix"]})
+        return
     if shard["part"] == "one":
         kind, tier, n = shard["kind"], shard["tier"], shard["n"]
         alpha = V.alphabet(kind, tier)
